@@ -62,3 +62,21 @@ func Compressible(seed uint64, n int) []byte {
 	}
 	return out
 }
+
+// TreeOf lists a directory tree canonically (relative paths, files with sizes).
+func TreeOf(root string) []string {
+	var out []string
+	filepath.Walk(root, func(p string, fi os.FileInfo, err error) error {
+		if err != nil {
+			return nil
+		}
+		rel, _ := filepath.Rel(root, p)
+		if fi.IsDir() {
+			out = append(out, rel+"/")
+		} else {
+			out = append(out, fmt.Sprintf("%s:%d", rel, fi.Size()))
+		}
+		return nil
+	})
+	return out
+}
